@@ -3,6 +3,7 @@ CONSTANTS
   K = 2
   Kinds = {"view"}
   Emit = FALSE
+  RepLevel = 2
   Bug = "drops_ws_git_head"
 INVARIANTS InvView
 CHECK_DEADLOCK FALSE
